@@ -14,6 +14,8 @@ impl GenerationPass for LivenessPass {
         #[allow(clippy::mutable_key_type)]
         let mut visited = HashSet::new();
         while changed {
+            #[cfg(feature = "verif-hooks")]
+            crate::verif_hooks::sweep(crate::verif_hooks::Pass::Liveness);
             changed = false;
             for node in cfg.iter().rev() {
                 // live_out[n] = U live_in[s] for all s in next[n]
